@@ -39,6 +39,7 @@ import (
 	"github.com/cosmos/cosmos-sdk/crypto/keys/ed25519"
 	"github.com/cosmos/cosmos-sdk/crypto/keys/secp256k1"
 	"github.com/cosmos/cosmos-sdk/testutil/sims"
+	storetypes "github.com/cosmos/cosmos-sdk/store/types"
 	sdk "github.com/cosmos/cosmos-sdk/types"
 	authtypes "github.com/cosmos/cosmos-sdk/x/auth/types"
 	"github.com/cosmos/cosmos-sdk/x/authz"
@@ -595,7 +596,7 @@ func (r *replica) runBlock(b c01Block, wantStores bool) blockDigest {
 func (r *replica) storeDigests() map[string]string {
 	out := map[string]string{}
 	for _, k := range r.c.App.GetStoreKeys() {
-		kv, ok := k.(interface{ Name() string })
+		kv, ok := k.(*storetypes.KVStoreKey) // IAVL stores only: memory / transient stores are not part of the app hash
 		if !ok {
 			continue
 		}
